@@ -404,6 +404,28 @@ class Gen:
         return [r.choice(['chr1', 'chr1', 'chr2', 'chrUn_alt']), s, s + r.choice([1, 2, 20, 21, 100, 500])]
 
 
+def ref_end(r):
+    import re
+    if not r['cigar']:
+        return None
+    return r['pos'] + sum(int(n) for n, op in re.findall(r'(\d+)([MIDNSHP=X])', r['cigar']) if op in 'MDN=X')
+
+
+def directed_intervals(rng, lib, n):
+    """intervals whose borders sit on / next to the start and end of records of the library"""
+    placed = [r for r in lib['reads'] if r['ref'] >= 0 and r['cigar']]
+    out = []
+    for _ in range(n):
+        if not placed:
+            break
+        r = rng.choice(placed)
+        p, e = r['pos'], ref_end(r)
+        s, t = rng.choice([(p, p + 1), (p - 5, p), (p - 5, p + 1), (p + 1, p + 9), (e, e + 1), (e - 1, e), (e + 1, e + 5),
+                           (e - 3, e + 1), (p, e), (p + 1, e), (e, e + 30), (p - 3, e + 3)])
+        out.append([lib['contigs'][r['ref']][0], max(0, s), max(1, t)])
+    return out
+
+
 def fixed_lib():
     """the fixed ~40 read library for the exhaustive option enumeration (seed independent)"""
     import random
@@ -471,6 +493,13 @@ class Prop(fw.PropBase):
             libs.append(g.lib(self.rng.choice([1, 2, 3, 5, 8, 12, 20, 30]), malformed=self.rng.random() < 0.1))
             for _ in range(per):
                 c = {'lib': i, 'opts': g.opts()}
+                o = c['opts']
+                if 'blacklist' in o and self.rng.random() < 0.6:
+                    o['blacklist'] = directed_intervals(self.rng, libs[i], len(o['blacklist'])) or o['blacklist']
+                if 'bed' in o and self.rng.random() < 0.6:
+                    d = directed_intervals(self.rng, libs[i], len(o['bed']))
+                    if d:
+                        o['bed'] = [iv + ['b%d' % (k % 3)] for k, iv in enumerate(d)]
                 if i > 0 and self.rng.random() < 0.05:
                     c['lib'] = [i, self.rng.randrange(i)]
                 cases.append(c)
